@@ -30,6 +30,9 @@ void hb_str_replace(void)
     ST_EXC = 0; ST_LIVE = 0; ST_FAULT = 0;
     char R_s[RB_S], R_f[RB_F], R_t[RB_T]; size_t R_sn = nondet_size_t(), R_fn = nondet_size_t(), R_tn = nondet_size_t(); _Bool R_ci = nondet_bool();
     __CPROVER_assume(R_sn <= RB_S && R_fn <= RB_F && R_tn <= RB_T);
+#ifdef RB_CI
+    __CPROVER_assume(R_ci == RB_CI);
+#endif
     struct ST_string s, from, to, res; rb_str(&s, R_s, R_sn); rb_str(&from, R_f, R_fn); rb_str(&to, R_t, R_tn);
     /* reference: scan left to right; at each position, if the pattern occurs there emit the replacement and skip it, else emit the byte */
     char exp[RB_S * RB_T + RB_S + 1]; size_t en = 0, i = 0;
